@@ -437,6 +437,7 @@ ENUMS = [
     [["D1", {"t": "Decimal", "v": [0, "150", -2]}], ["D2", {"t": "Decimal", "v": [1, "2", 0]}], ["D3", {"t": "Decimal", "v": [0, "1", 3]}]],
     [["Q1", {"t": "QName", "v": "{urn:a}b"}], ["Q2", {"t": "QName", "v": "c"}], ["Q3", {"t": "QName", "v": "{http://www.w3.org/2001/XMLSchema}int"}]],
     [["S", S_("1")], ["I", I_(10)], ["M", {"t": "tuple", "v": [S_("1"), I_(0)]}]],
+    [["X", S_("a b")], ["Y", S_("a\tb")], ["Z", S_("a  b")]],
 ]
 ENUM_STRINGS = ["a", "b c", " b   c ", "b\tc", "x  y", "x y", "d", "", " ", "1", "true", " lead", "lead", "trail ", "trail", "a\tb", "a b", "ok", "2", " 2 ", "02",
                 "+2", "-7", "1_0", "١", str(2 ** 70), "0", "-0", "false", "0", "TRUE", "a b ", "1 2", "1  2", "01 2", "z", "p q", "3 4 5", "3 4", "1.50", "1.5",
@@ -444,6 +445,7 @@ ENUM_STRINGS = ["a", "b c", " b   c ", "b\tc", "x  y", "x y", "d", "", " ", "1",
                 "a  b", "nope", "1 2 3", "\xa0a\xa0"]
 
 FACTORY_ENUMS = [ENUMS[0], ENUMS[1], ENUMS[2], ENUMS[3]]
+DOC_POOL = ["int", "bool", "float", "Decimal", "QName", "str"]
 TYPE_POOL = ["int", "bool", "str", "bytes", "object", "Unreg0", "Unreg1", "float", "Decimal", "QName", "Enum:0", "Enum:2", "Enum:3"]
 
 
@@ -565,18 +567,22 @@ def run(ck: Check):
         if r.random() < 0.25:
             x = r.choice(PYWS + WS) + x + r.choice(PYWS + WS)
         add({"op": "deser", "types": ["Decimal"], "s": x}, kind="dec_deser", sp=None)
-    for _ in range(150 * N):
-        v = g_dec_value(r)
+    # the witnesses of the refutation lemmas / known findings come first, then generated values
+    for v in [[0, "0", "F"], [1, "0", "F"], [0, "", "n"]] + [g_dec_value(r) for _ in range(150 * N)]:
         add({"op": "roundtrip", "type": "Decimal", "v": {"t": "Decimal", "v": v}}, kind="dec_ser", v=v)
 
     # ---------------- QName
-    for _ in range(120 * N):
-        uri = r.choice(URIS[:8])
-        m = g_nsmap(r, uri) or []
-        bound = [p for p, u in m if p]
-        k = r.random()
-        prefix = r.choice(bound) if bound and k < 0.6 else (None if k < 0.85 else r.choice(PREFIXES))
-        local = r.choice(LOCALS)
+    fixed_q = [([["p", "urn:a"]], "p", "a\u0301"), ([], None, "a\u0301"), ([["p", "urn:a"]], "p", "x\u203fy")]
+    for n in range(120 * N + len(fixed_q)):
+        if n < len(fixed_q):
+            m, prefix, local = fixed_q[n]
+        else:
+            uri = r.choice(URIS[:8])
+            m = g_nsmap(r, uri) or []
+            bound = [p for p, u in m if p]
+            k = r.random()
+            prefix = r.choice(bound) if bound and k < 0.6 else (None if k < 0.85 else r.choice(PREFIXES))
+            local = r.choice(LOCALS)
         a, b = ws(r), ws(r)
         lex = (prefix + ":" if prefix is not None else "") + local
         add({"op": "deser", "types": ["QName"], "s": a + lex + b, "ns_map": m}, kind="qname_deser", sp=(a, prefix, local, b), m=m)
@@ -587,10 +593,15 @@ def run(ck: Check):
     for _ in range(40 * N):
         x = "{" + r.choice(URIS) + "}" + r.choice(LOCALS + BAD_LOCALS)
         add({"op": "deser", "types": ["QName"], "s": x, "ns_map": None}, kind="qname_deser", sp=None, m=None)
-    for _ in range(180 * N):
-        uri = r.choice([None, None] + URIS[:8] * 3 + URIS)
-        local = r.choice(LOCALS) if r.random() < 0.93 else r.choice(BAD_LOCALS[1:])
-        m = g_nsmap(r, uri)
+    fixed_v = [("http://www.w3.org/2001/XMLSchema-instance", "type", None), (None, "x", [[None, "urn:d"]]), ("urn:x-y", "a", None),
+               ("urn:a", "b", [["ns1", "urn:b"]]), ("urn:a", "b", [[None, "urn:a"]]), ("http://www.w3.org/2001/XMLSchema", "int", [])]
+    for n in range(180 * N + len(fixed_v)):
+        if n < len(fixed_v):
+            uri, local, m = fixed_v[n]
+        else:
+            uri = r.choice([None, None] + URIS[:8] * 3 + URIS)
+            local = r.choice(LOCALS) if r.random() < 0.93 else r.choice(BAD_LOCALS[1:])
+            m = g_nsmap(r, uri)
         add({"op": "roundtrip", "type": "QName", "v": {"t": "QName", "v": qtext(uri, local)}, "ns_map": m}, kind="qname_ser", uri=uri, local=local, m=m)
         add({"op": "ser", "v": {"t": "QName", "v": qtext(uri, local)}, "ns_map": m}, kind="qname_ser2", uri=uri, local=local, m=m)
 
@@ -632,9 +643,9 @@ def run(ck: Check):
     pool_strings = ["1", "0", "true", "false", " 1 ", "12", "-7", "+3", "abc", "", "00", "AAAA", "1_0", "١", "ff", "QUJD",
                     "\xa01", "tr ue", "1.0", "0x1", "1e5", "INF", "NaN", "nan", "1.50", "p:x", "x", "{urn:a}x", "a", "b c", "2", "1_0.5", "Infinity",
                     ".5", "5.", "-0", "a:b", "é", "1e400", "d"]
-    for _ in range(60 * N):
+    for _ in range(100 * N):
         k = r.choice([0, 1, 2, 2, 3, 3, 4, 5, 6])
-        types = [r.choice(TYPE_POOL) for _ in range(k)]
+        types = [r.choice(TYPE_POOL if r.random() < 0.4 else DOC_POOL) for _ in range(k)] if r.random() < 0.5 else r.sample(DOC_POOL, min(k, len(DOC_POOL)))
         if r.random() < 0.6:  # sort_types works on distinct classes in practice
             types = list(dict.fromkeys(types))
         add({"op": "sort_types", "types": types, "enums": FACTORY_ENUMS}, kind="sort_types")
@@ -789,6 +800,8 @@ def run(ck: Check):
         terms = [f"({hexZ(it[3]['z'])}, {cstr(it[2]['ok'])})" for it in items]
         for it in run_pred("agree_int_dt", "Z * str", "agree_int_datatype", items, terms):
             fail("corr-int-datatype", f"model and implementation disagree on DataType.from_value({it[3]['z']}) = {it[2]}", {"op": it[1], "impl": it[2]})
+        for it in run_pred("oracle_int_dt", "Z * str", "oracle_int_datatype", items, terms):
+            fail("int-datatype-does-not-contain-value", f"DataType.from_value({it[3]['z']}) = {it[2]['ok']}, whose value space does not contain the value", {"op": it[1], "impl": it[2]})
 
         # ---------------- bytes
         def obytes(rs):
@@ -1024,6 +1037,9 @@ def run(ck: Check):
                 fail("enum-tuple-value-not-serializable", what, {"op": it[1], "impl": it[2]})
             elif v["t"] == "str" and v["v"] != v["v"].strip():
                 fail("enum-str-value-outer-whitespace", what, {"op": it[1], "impl": it[2]})
+            elif v["t"] == "str" and " ".join(v["v"].split()) != v["v"] and any(
+                    m[1]["t"] == "str" and m[1]["v"] == " ".join(v["v"].split()) for m in it[3]["members"][:it[3]["j"]]):
+                fail("enum-str-value-whitespace-collision", what, {"op": it[1], "impl": it[2]})
             else:
                 fail("enum-roundtrip", what, {"op": it[1], "impl": it[2]})
 
@@ -1054,6 +1070,7 @@ def run(ck: Check):
             vt = lambda v, d=d: value_term(v, d["op"]["s"], FACTORY_ENUMS)  # noqa: E731
             singles = clist(d["single"], lambda p: f"({ty_term(p[0])}, {obs_of(p[1], vt)})", "(pytype * option value)")
             terms.append(f"({singles}, {obs_of(d['sorted'], vt)})")
+        ck.cov["priority_cases_with_documented_types_only"] = count_true("prio_app", "list (pytype * option value) * option value", "priority_case_applies", pitems, terms)
         for i, d in run_pred("priority", "list (pytype * option value) * option value", "oracle_priority", pitems, terms):
             fail("priority-order-not-respected", f"deserialize({d['op']['s']!r}, sorted {d['op']['types']}) = {d['sorted']} but singly: {d['single']}",
                        {"op": d["op"], "single": d["single"], "impl": d["sorted"]})
